@@ -14,6 +14,7 @@ import (
 func init() { register("C19", c19) }
 
 func c19(c *Ctx) {
+	defer c.noReentryIntoTheDatabase("R19.14")
 	R := c.R
 	R.Explain("R19.2", "T-GUARDED: every access of a shared field happens while its lock is held, in the accessing function, in the function that runs the closure, or in every caller (table confirmed by reading; constructors are exempt).")
 	type g struct {
